@@ -964,7 +964,8 @@ def replay(path):
     with open(path) as f:
         case = json.load(f)["case"]
     t = dict(case["task"], dir=tlc.scratch())
-    rows, meta = _task(t)
+    with aldyenv.quiet_stderr():      # aldy's main() logs to stderr
+        rows, meta = _task(t)
     if meta.get("failed"):
         print("MACHINERY-FAILURE: case could not be rebuilt:", meta["failed"])
         return 2
